@@ -1,7 +1,7 @@
 (* C28 -- pinned property theorems (nothing else lives here).  The model is a specification; the implementation is
    tied to it by correspondence only. *)
 From Coq Require Import List NArith Bool Lia.
-From V Require Import C28.Model.
+From V Require Import C28.Model C28.Iter C28.IterProofs.
 Import ListNotations.
 
 (* the solutions are yielded exactly, in order *)
@@ -62,3 +62,52 @@ Print Assumptions history_independence.
 Theorem partial_consumption_is_prefix : forall q k, observe q k = firstn k (observe q (length (stream q))).
 Proof. intros q k. unfold observe. rewrite firstn_all. reflexivity. Qed.
 Print Assumptions partial_consumption_is_prefix.
+
+(* ---------- the implementation's iterator (mirror of run_query / QueryState::next / Drop in C28/Iter.v) *)
+(* For every machine state left behind by earlier queries (any or-stack depth, any stale ball), every query and every
+   number of answers pulled: the iterator yields exactly the first answers of the specification's stream, *)
+Theorem iterator_refines_stream : forall m q take,
+  snd (run_one as_built m (script_of q) take) = observe q take.
+Proof. exact iterator_refines_stream_proof. Qed.
+Print Assumptions iterator_refines_stream.
+
+(* so that a whole history on one machine observes what the specification says, each query as on a fresh machine, *)
+Theorem mirror_history_is_spec_history : forall h m,
+  snd (run_hist as_built m (map (fun qk => (script_of (fst qk), snd qk)) h)) = run_history h.
+Proof. exact history_independent_proof. Qed.
+Print Assumptions mirror_history_is_spec_history.
+
+(* and the or-stack is where it was before the history, for any scripts the WAM may produce (wfb) and any consumption *)
+Theorem or_stack_restored : forall h m, Forall (fun st => wfb (fst st) = true) h ->
+  b (fst (run_hist as_built m h)) = b m.
+Proof. exact or_stack_restored_proof. Qed.
+Print Assumptions or_stack_restored.
+
+Theorem script_of_wellformed : forall q, wfb (script_of q) = true.
+Proof. exact script_of_wf. Qed.
+Print Assumptions script_of_wellformed.
+
+(* the two repairs made in /repo are necessary in the mirror: without ball.reset() a query after a throwing query
+   reports the old ball (46be8ba); without discarding the frames above the stub a partially consumed iterator leaves
+   the or-stack deeper than it was (b1aa2a8) *)
+Example ball_reset_is_necessary :
+  snd (run_hist {| reset_ball := false; discard := true |} {| b := 0; ball := None |}
+         [(script_of {| sols := []; exc := Some 7%N; leaves_choicepoint := false |}, 2%nat);
+          (script_of {| sols := [1%N]; exc := None; leaves_choicepoint := false |}, 2%nat)])
+  = [[LExc 7%N]; [LExc 7%N]].
+Proof. vm_compute. reflexivity. Qed.
+
+Example discard_is_necessary :
+  b (fst (run_hist {| reset_ball := true; discard := false |} {| b := 0; ball := None |}
+         [(script_of {| sols := [1%N; 2%N; 3%N]; exc := None; leaves_choicepoint := false |}, 1%nat)])) = 1%nat.
+Proof. vm_compute. reflexivity. Qed.
+
+(* non-vacuity: a history with a partially consumed nondeterministic query, a throwing query and a failing one *)
+Example mirror_history_example :
+  snd (run_hist as_built {| b := 3; ball := Some 9%N |}
+         [(script_of {| sols := [1%N; 2%N; 3%N]; exc := None; leaves_choicepoint := false |}, 2%nat);
+          (script_of {| sols := [4%N]; exc := Some 7%N; leaves_choicepoint := false |}, 5%nat);
+          (script_of {| sols := []; exc := None; leaves_choicepoint := false |}, 5%nat);
+          (script_of {| sols := [5%N]; exc := None; leaves_choicepoint := true |}, 5%nat)])
+  = [[LSol 1%N; LSol 2%N]; [LSol 4%N; LExc 7%N]; [LFalse]; [LSol 5%N; LFalse]].
+Proof. vm_compute. reflexivity. Qed.
